@@ -56,14 +56,21 @@ def analyze(
         remote: If True, command runs in remote context (container, ssh).
                 Skips path-based checks since paths are remote, not local.
     """
-    command = command.strip()
-    if not command:
+    # bash separates words at blanks and newlines only: any other white space
+    # (form feed, carriage return, no-break space, ...) is part of a word
+    command = command.strip(" \t\n")
+    if not command.strip():
         return Decision("ask", "empty command")
+    if any(c.isspace() and c not in " \t\n" for c in command):
+        return Decision("ask", "unusual white space")
 
     try:
         nodes = parse(command)
     except ParseError as e:
         return Decision("ask", f"parse error: {e.message}")
+    except (ValueError, IndexError, RecursionError) as e:
+        # the parser itself failed: the command is unparseable for us
+        return Decision("ask", f"parse error: {type(e).__name__}")
 
     if not nodes:
         return Decision("ask", "empty command")
